@@ -98,3 +98,14 @@ pub const P3_PRIM: [(f64, f64); 3] = [(0.680, 0.320), (0.265, 0.690), (0.150, 0.
 pub const PROPHOTO_PRIM: [(f64, f64); 3] = [(0.7347, 0.2653), (0.1596, 0.8404), (0.0366, 0.0001)];
 pub const W_D65: (f64, f64, f64) = (0.95047, 1.0, 1.08883);
 pub const W_D50: (f64, f64, f64) = (0.96422, 1.0, 0.82521);
+
+/// Ottosson's Oklab from LINEAR sRGB (blog post, revision of 2021-01-25)
+pub const OK_SRGB_M1: [[f64; 3]; 3] = [
+    [0.4122214708, 0.5363325363, 0.0514459929],
+    [0.2119034982, 0.6806995451, 0.1073969566],
+    [0.0883024619, 0.2817188376, 0.6299787005],
+];
+pub fn linear_srgb_to_oklab<T: Num>(r: T, g: T, b: T) -> (T, T, T) {
+    let (l, m, s) = mat_vec(&OK_SRGB_M1, (r, g, b));
+    mat_vec(&OK_M2, (l.cbrt(), m.cbrt(), s.cbrt()))
+}
